@@ -24,11 +24,11 @@ func vRepeat(u string, k int) string {
 	return s
 }
 
-var vSqlUnits = [...]string{"''", "\\'", "$t$", "/*", "@", "`", "[", "a.", "a`", "--", "1,", "(", "1e", "x'", "q'(", "$$", "#", "\"\"", "a ", "1 ", ";", "{a ", "n'", "/*!", "1+", "or 1 ", "@@", "\\N", "u&'", "0x", "`a` ", "]'", "*/", "-", "<=>", "[aaaaaaaaaaaaaaaaaaaaaaaaaaaaaa,", "(aaaaaaaaaaaaaaaaaaaaaaaaaaaaaaaa,", "aaaaaaaaaaaaaaaaaaaaaaaaaaaaaaaa.", "'aaaaaaaaaaaaaaaaaaaaaaaaaaaaaaaa',", "and.1", "or`1`", "select.", "1or.", "in.(", "@a.b"}
-var vXssUnits = [...]string{"<", "-", "%", "]", "&#", "/", "a=", "<!--x-->", "<%x%>", "</x>", "<x>", "<a b=c ", "' ", "\" ", "` ", "<!--", "<![CDATA[", "<?x>", "<!x>", "x=`", "--!", "]]", "%>", "<a href=&#x6a;", "<a/", "/ ", "<a b='c'", "\x00", "=\x00", "<!--[if", "<a style=", "&#x41", "<a href=java", "x", "&#120;", "x\x00", "<a href=\"xxxxxxxxxxxxxxxxxxxxxxxxxxxxxxxx\">"}
+var vSqlUnits = [...]string{"''", "\\'", "$t$", "/*", "@", "`", "[", "a.", "a`", "--", "1,", "(", "1e", "x'", "q'(", "$$", "#", "\"\"", "a ", "1 ", ";", "{a ", "n'", "/*!", "1+", "or 1 ", "@@", "\\N", "u&'", "0x", "`a` ", "]'", "*/", "-", "<=>", "[aaaaaaaaaaaaaaaaaaaaaaaaaaaaaa,", "(aaaaaaaaaaaaaaaaaaaaaaaaaaaaaaaa,", "aaaaaaaaaaaaaaaaaaaaaaaaaaaaaaaa.", "'aaaaaaaaaaaaaaaaaaaaaaaaaaaaaaaa',", "and.1", "or`1`", "select.", "1or.", "in.(", "@a.b", "/**/", "/* a */ ", "1/**/+", "a/**/"}
+var vXssUnits = [...]string{"<", "-", "%", "]", "&#", "/", "a=", "<!--x-->", "<%x%>", "</x>", "<x>", "<a b=c ", "' ", "\" ", "` ", "<!--", "<![CDATA[", "<?x>", "<!x>", "x=`", "--!", "]]", "%>", "<a href=&#x6a;", "<a/", "/ ", "<a b='c'", "\x00", "=\x00", "<!--[if", "<a style=", "&#x41", "<a href=java", "x", "&#120;", "x\x00", "<a href=\"xxxxxxxxxxxxxxxxxxxxxxxxxxxxxxxx\">", "</>", "a", "<!---->", "<a b>"}
 
-const vNumSqlUnits = 45
-const vNumXssUnits = 37
+const vNumSqlUnits = 49
+const vNumXssUnits = 41
 
 // HRepeatSqli: pre + (unit with `holes` free bytes appended)^k and ^2k. Cost linear: doubling the length at most doubles
 // the cost (plus a constant), and the cost per byte stays under a generous constant.
@@ -55,9 +55,11 @@ func HRepeatSqli(unit int, holes int, k int, pre int, perByte int, slack int) {
 
 func HRepeatXss(unit int, holes int, k int, pre int, perByte int, slack int) {
 	u := vXssUnits[unit] + vNondetString(holes)
-	p := [...]string{"", "<a ", "x' ", "<!--", "<a href=\"", "<a href=", "<a src='"}[pre]
-	s1 := p + vRepeat(u, k)
-	s2 := p + vRepeat(u, 2*k)
+	p := [...]string{"", "<a ", "x' ", "<!--", "<a href=\"", "<a href=", "<a src='", "<!--", "<%", "<![CDATA[", "<!--"}[pre]
+	q := [...]string{"", "", "", "", "", "", "", "-ab", "%x", "]x", "-\x00a>"}[pre]
+	s1 := p + vRepeat(u, k) + q
+	s2 := p + vRepeat(u, 2*k) + q
+	vObserveStr("post", q)
 	c0 := vCost()
 	vResetDepth()
 	IsXSS(s1)
